@@ -195,3 +195,49 @@ var messages = []string{
 	"tab\there",
 	`{"severity":"ERROR"}`,
 }
+
+// Size classes of the model (HybridLogMC: SizesAll): the length of one value
+// (or of the message) that makes the text line that long.
+var sizeTable = [...]int{0, 4<<10 - 1, 16<<10 - 1, 16 << 10, 16<<10 + 1, 64 << 10, 1 << 20}
+
+var bigCache = func() (out [len(sizeTable)]string) {
+	for i, n := range sizeTable {
+		b := make([]byte, n)
+		for j := range b {
+			switch {
+			case j%97 == 96:
+				b[j] = ' '
+			case j%1021 == 1020:
+				b[j] = '"'
+			default:
+				b[j] = byte('a' + j%26)
+			}
+		}
+		out[i] = string(b)
+	}
+	return out
+}()
+
+// bigValue is a string of exactly sizeTable[sz] bytes that starts with t.
+func bigValue(sz int, t string) string {
+	s := bigCache[sz]
+	if len(t) >= len(s) {
+		return s
+	}
+	return t + s[len(t):]
+}
+
+// enlarge makes the record of the given size class: its first attribute gets
+// a value of that size (keeping its id-bearing key), or the message when the
+// record has no attributes.
+func enlarge(sz int, ids []int, attrs []slog.Attr, msg string) ([]slog.Attr, string) {
+	if sz <= 0 {
+		return attrs, msg
+	}
+	if len(attrs) == 0 {
+		return attrs, bigValue(sz, "big message ")
+	}
+	out := append([]slog.Attr(nil), attrs...)
+	out[0] = slog.String(tag(ids[0]), bigValue(sz, tag(ids[0])+" "))
+	return out, msg
+}
